@@ -58,7 +58,7 @@ PROPS = {
                 "date, or is not a plain fixed-duration task; distinct = distinct script text",
         "assumptions": ["the task formulas emitted by the real code are those of the model (ENC, restricted to "
                         "owners task:* and problem)"],
-        "n": {"quick": 300, "thorough": 4000},
+        "n": {"quick": 450, "thorough": 4000},
     },
     "C10": {
         "theorems": ["C10_connective_raw", "C10_connective", "C10_optional", "C10_mandatory", "C10_forceApplyN",
@@ -76,7 +76,7 @@ PROPS = {
                 "= at least one connective or force-apply rule; distinct = distinct script text",
         "assumptions": ["assertions emitted for constraints by the real code are those of the model (ENC, all constr:* owners), "
                         "or logically equivalent to them on the script (z3, tier 2)"],
-        "n": {"quick": 350, "thorough": 3000},
+        "n": {"quick": 500, "thorough": 3000},
     },
     "C03": {
         "theorems": ["C03_raw_sound", "C03_task_constraints", "C03_optional_constraints", "C03_scheduleN_lower", "C03_scheduleN_enforced",
@@ -93,7 +93,7 @@ PROPS = {
         "assumptions": ["the task-constraint formulas emitted by the real code are those of the model (ENC, owners constr:*:<task "
                         "constraint class>) or equivalent on the script (z3)",
                         "TasksContiguous and the upper side of ScheduleNTasksInTimeIntervals: see known findings / partial theorems"],
-        "n": {"quick": 400, "thorough": 4000},
+        "n": {"quick": 600, "thorough": 4000},
     },
     "C04": {
         "theorems": ["C04_raw_sound", "C04_resource_constraints", "workloadOne_sound", "sortNoDup_sound", "C04_periodic_own_period",
@@ -124,7 +124,7 @@ PROPS = {
         "assumptions": ["resource-constraint formulas emitted by the real code are those of the model (ENC) or equivalent (z3)",
                         "periodic classes: the window of the period the busy interval starts in (F13, F39: the next period's "
                         "window can be overlapped); ResourceTasksDistance / NonDelay have a theorem but no SEM twin"],
-        "n": {"quick": 400, "thorough": 4000},
+        "n": {"quick": 550, "thorough": 4000},
     },
     "C08": {
         "theorems": ["C08_body_sound", "C08_indicator_value", "C08_target_bounds", "linear_trapezoid", "C08_spec_sound"],
@@ -141,7 +141,7 @@ PROPS = {
                         "IndicatorResourceIdle and non-constant cost functions: ENC only (no spec twin); polynomial costs are the "
                         "trapezoid as implemented, not claimed equal to the integral",
                         "build_solution reports the value of the indicator variable (SOL channel, C11)"],
-        "n": {"quick": 400, "thorough": 4000},
+        "n": {"quick": 600, "thorough": 4000},
     },
     "C18": {
         "theorems": ["fieldTable_meets_spec", "C18_task_iff", "C18_worker_iff", "C18_select_iff", "C18_buffer_iff",
@@ -177,7 +177,7 @@ PROPS = {
         "relevant": lambda o: owner_in(o, ("req:",)),
         "spec": "C02",
         "sol_profiles": ["core", "all", "ind", "buffer"],
-        "n_sol": {"quick": 300, "thorough": 5000},
+        "n_sol": {"quick": 450, "thorough": 5000},
         "z3_fraction": 0.3,
         "nontrivial": lambda s: True,
         "rule": "ENC + SEM on the requirement formulas (owner req:*, spec twin C02: the busy interval every reported assignment "
@@ -204,7 +204,7 @@ PROPS = {
         "spec": None,
         "out_profiles": ["all", "core", "obj", "buffer", "ind"],
         "out_what": ("df", "excel", "json", "smt"),
-        "n_out": {"quick": 120, "thorough": 2500},
+        "n_out": {"quick": 180, "thorough": 2500},
         "nontrivial": lambda s: True,
         "rule": "OUT: generated problems (all element kinds, optional and zero-duration tasks, buffers, indicators, "
                 "calendar times, both optimisers) are solved with real z3; to_df / to_csv (string and ';'-separated file) / "
@@ -228,7 +228,7 @@ PROPS = {
         "spec": None,
         "out_profiles": ["all", "core", "buffer", "ind"],
         "out_what": ("gantt",),
-        "n_out": {"quick": 100, "thorough": 2000},
+        "n_out": {"quick": 150, "thorough": 2000},
         "nontrivial": lambda s: True,
         "rule": "OUT: generated problems solved with real z3, rendered with render_gantt_matplotlib on the Agg backend in "
                 "both modes; bar rectangles (PolyCollection vertices), their labels and label positions, row tick labels "
@@ -245,8 +245,9 @@ PROPS = {
                      "periodicInterruptedOne_complete", "indicator_complete", "eval_congr_term", "eval_congr_fml",
                      "C05_sound_core", "C05_feasible_iff", "envOf_schedOf_task", "envOf_schedOf_busy", "core_raw_sound",
                      "agree_own", "agree_own2", "envOf_indicator", "eval_congr2_term", "eval_congr2_fml", "reachable_wf",
-                     "InCoreS.of_reachable", "Exact_ex_inCoreS", "multi_extend", "C05_feasible_iff_multi", "Multi_ex_inCoreS"],
-        "modules": ["Exact", "Multi"],
+                     "InCoreS.of_reachable", "Exact_ex_inCoreS", "multi_extend", "C05_feasible_iff_multi", "Multi_ex_inCoreS",
+                     "C05_feasible_iff_clean"],
+        "modules": ["Exact", "Multi", "CleanSpec"],
         "profiles": [("all", 0.3), ("frag", 0.2), ("resc", 0.1), ("fol", 0.15), ("focus_resc", 0.15), ("focus_taskc", 0.1)],
         "relevant": lambda o: True,
         "spec": None,
@@ -265,7 +266,7 @@ PROPS = {
         "assumptions": ["theorem C05_complete_core covers the core fragment (InCore); outside it completeness rests on the exact "
                         "ENC correspondence with the model and on the known findings list",
                         "z3 is complete on the emitted fragment (hypothesis ConsistentAns)"],
-        "n": {"quick": 400, "thorough": 3000},
+        "n": {"quick": 550, "thorough": 3000},
     },
     "C06": {
         "theorems": ["C06_scheduled_as_mandatory", "C06_parked", "C06_busy_parked", "C06_blocks_nobody",
@@ -290,7 +291,7 @@ PROPS = {
         "assumptions": ["the equality of the two schedule sets is decided by ENC + RUN inside the fragment, the local inertness "
                         "facts by theorems; buffers (F16), release dates (F7), work amounts (F26), groups / ScheduleN (F18), "
                         "interruptions (F24), delayed requirements (F19) of optional tasks are recorded findings"],
-        "n": {"quick": 350, "thorough": 3000},
+        "n": {"quick": 500, "thorough": 3000},
     },
     "C07": {
         "theorems": ["incLoop_spec", "C07_anytime", "C07_optimal", "incLoop_bound", "C07_bound_stop", "C07_weighted",
@@ -359,7 +360,7 @@ PROPS = {
         "spec": None,
         "cfg_grid": True,
         "sm_profiles": ["obj", "obj", "core", "buffer"], "run_profiles": ["obj", "taskc", "resc", "buffer"],
-        "n_sm": {"quick": 200, "thorough": 3000}, "n_run": {"quick": 70, "thorough": 600},
+        "n_sm": {"quick": 200, "thorough": 3000}, "n_run": {"quick": 100, "thorough": 600},
         "run_check": __import__("harness.solverprops", fromlist=["x"]).run_c15,
         "nontrivial": lambda s: True,
         "rule": "ENC over the configuration grid (debug x optimizer x priority): the emitted assertions must be the model's "
@@ -376,7 +377,7 @@ PROPS = {
         "spec": None,
         "sm_profiles": ["taskc", "buffer", "all"], "run_profiles": ["taskc", "resc", "fol", "buffer"],
         "sm_debug": True,
-        "n_sm": {"quick": 80, "thorough": 1000}, "n_run": {"quick": 40, "thorough": 600},
+        "n_sm": {"quick": 80, "thorough": 1000}, "n_run": {"quick": 70, "thorough": 600},
         "run_check": __import__("harness.solverprops", fromlist=["x"]).run_c19,
         "nontrivial": lambda s: True,
         "rule": "RUN: generated problems made infeasible by two conflicting user constraints among irrelevant ones, solved "
@@ -417,12 +418,13 @@ PROPS = {
                         "accesses count)",
                         "z3 decides the quantified pulse formulas of concurrent buffers (unknown answers are counted, not "
                         "treated as violations)"],
-        "n": {"quick": 300, "thorough": 4000},
+        "n": {"quick": 400, "thorough": 4000},
     },
     "C14": {
         "theorems": ["C14_fresh_problem", "C14_run_after_problem", "C14_valid_order_free", "C05_complete_core",
-                     "C14_core_verdict", "C14_core_schedules"],
-        "modules": ["Exact"],
+                     "C14_core_verdict", "C14_core_schedules", "Valid_iff_clean2", "ValidClean2_renumber", "Valid_renumber",
+                     "C14_tasks_order_verdict", "CoreMeaning_renumTasks", "Renum_ex_same", "Renum_ex_verdict"],
+        "modules": ["Exact", "Renumber"],
         "profiles": [("all", 0.45), ("core", 0.2), ("obj", 0.15), ("buffer", 0.2)],
         "relevant": lambda o: True,
         "spec": None,
@@ -453,8 +455,9 @@ PROPS = {
     },
     "C02": {
         "theorems": ["C02_no_overlap", "C02_load_le_one", "C02_cumulative_capacity", "C02_busy_span",
-                     "C02_selection_count", "C02_work_amount", "C02_spec_sound"],
-        "modules": ["SpecSound"],
+                     "C02_selection_count", "C02_work_amount", "C02_spec_sound", "no_overlap_iff_real", "Valid_iff_clean",
+                     "workSum_real", "Valid_work_real"],
+        "modules": ["SpecSound", "CleanSpec"],
         "profiles": [("core", 0.35), ("resc", 0.2), ("all", 0.15), ("resfol", 0.3)],
         "relevant": lambda o: owner_in(o, ("req:", "worker:", "work:")),
         "spec": "C02",
@@ -465,7 +468,7 @@ PROPS = {
         "assumptions": ["the requirement, non-overlap and work-amount formulas emitted by the real code are those of "
                         "the model (ENC, owners req:*, worker:*, work:*)",
                         "delay_in + early_out <= duration is the user's responsibility (DelaysFit)"],
-        "n": {"quick": 300, "thorough": 4000},
+        "n": {"quick": 450, "thorough": 4000},
     },
 }
 
